@@ -87,7 +87,7 @@ def run(res, tier, seed):
         lines_sampled = sorted(set([0, 1, n // 2, n - 2, n - 1] + [rng.randrange(n) for _ in range(3)]))
         counts = np.zeros((n, W), dtype=float)
         for i in range(n):
-            counts[i] = [rng.choice([0, 1023, rng.randrange(1024), int(space10[i][chan] / 10) + rng.choice([-3, -1, 0, 1]),
+            counts[i] = [rng.choice([0, 1023, rng.randrange(1024), int(space10[i][chan] / 10) + rng.choice([-3, -1, 1, 2]),
                                      int(ict10[i][chan] / 10) + rng.choice([-1, 0, 1])]) for _ in range(W)]
         counts = np.clip(counts, 0, 1023)
         ctx = dict(spacecraft=sc, channel=thermal.IR[chan], lines=n, first_line=lns[0], residue=residue, bad_readings=nbad,
